@@ -32,3 +32,59 @@ Print Assumptions C20_sites_sound.
 (* non-vacuity: the scan found call sites, among them the truncation counters *)
 Example C20_ex_sites : (10 <=? N.of_nat (length wal_sites)) = true /\ (5 <=? N.of_nat (length vfy_sites)) = true.
 Proof. vm_compute. split; reflexivity. Qed.
+
+(* ======================================================================== *)
+(* BEGIN dynamic half (branch refine): the counters add up.  Proofs:
+   Wal/MetricsFacts.v on top of the sequential refinement (Props/C05.v). *)
+From RW Require Import Fmt.Codec Fmt.Frame Wal.Model Wal.Spec Wal.Hist Wal.MetricsSpec Wal.MetricsFacts.
+
+(* For every sequential history, the nine counters entries_written, entry_bytes_written,
+   log_appends, entry_bytes_read, entries_read, head_truncations, tail_truncations,
+   stable_gets, stable_sets of the model show the TRUE totals [true_totals os], which
+   Wal/MetricsSpec.v computes from the contiguous-log specification alone: bytes =
+   encoded sizes of the entries of accepted non-empty batches / of the entries found,
+   truncations = number of entries each accepted DeleteRange removes from the
+   specification log (head if mn <= first, else tail).  The four uint64 sums are
+   equal modulo 2^64 (counters_show); segment_rotations is not specified. *)
+Theorem C20_counters_true :
+  forall c os s0, cfg_ok c -> Forall sop_ok os -> short_enough os -> initial c = Some s0 ->
+  counters_show (e_m (ss_env (snd (run_model c s0 os)))) (true_totals os).
+Proof. exact counters_true. Qed.
+Print Assumptions C20_counters_true.
+
+(* ... and exactly, when the true totals are below 2^64 *)
+Theorem C20_counters_true_exact :
+  forall c os s0, cfg_ok c -> Forall sop_ok os -> short_enough os -> initial c = Some s0 ->
+  t_bytes_written (true_totals os) < two64 -> t_bytes_read (true_totals os) < two64 ->
+  t_head_trunc (true_totals os) < two64 -> t_tail_trunc (true_totals os) < two64 ->
+  counters_exact (e_m (ss_env (snd (run_model c s0 os)))) (true_totals os).
+Proof. exact counters_true_exact. Qed.
+Print Assumptions C20_counters_true_exact.
+
+(* non-vacuity: 128-byte segments, rotations, a head truncation, a refused store, a
+   tail truncation that removes the whole tail segment, and deleting the entire
+   log while the tail is empty (the case in which head_truncations used to wrap) *)
+Definition m_log (i : N) : log :=
+  {| l_index := i; l_term := 7; l_type := 0; l_data := [i; 1; 2; 3; 4; 5; 6; 7; 8; 9];
+     l_ext := []; l_time := {| t_sec := 63800000000; t_nsec := 5; t_zone := None |} |}.
+Definition m_ops : list sop :=
+  [ OStore [m_log 5; m_log 6]; OStore [m_log 7]; OStore [m_log 8; m_log 9]; OStore [m_log 10];
+    OGet 6; OGet 4; ODelete 0 6; OStore [m_log 14]; OStore []; ODelete 10 100; OGet 10;
+    OSet [107] [1] false; OSet [] [1] false; OGetS [107]; OReopen;
+    OStore [m_log 10]; ODelete 8 8; ODelete 0 1000; OStore [m_log 3] ].
+Example C20_ex_totals :
+  true_totals m_ops =
+  {| t_bytes_written := 240; t_entries_written := 8; t_appends := 6; t_bytes_read := 30; t_entries_read := 3;
+     t_head_trunc := 6; t_tail_trunc := 1; t_stable_gets := 1; t_stable_sets := 2 |}.
+Proof. vm_compute. reflexivity. Qed.
+Example C20_ex_counters :
+  let c := {| c_seg_size := 128; c_codec := 1 |} in
+  match initial c with
+  | Some s0 => let m := e_m (ss_env (snd (run_model c s0 m_ops))) in
+               (m_bytes_written m, m_entries_written m, m_appends m, m_bytes_read m, m_entries_read m,
+                m_head_trunc m, m_tail_trunc m, m_stable_gets m, m_stable_sets m, 2 <=? m_rotations m)
+  | None => (0, 0, 0, 0, 0, 0, 0, 0, 0, false)
+  end = (240, 8, 6, 30, 3, 6, 1, 1, 2, true).
+Proof. vm_compute. reflexivity. Qed.
+(* END dynamic half *)
+(* ======================================================================== *)
